@@ -107,7 +107,7 @@ namespace fastscapelib
                 {
                     receivers(i, 0) = i;
                     dist2receivers(i, 0) = 0;
-                    slope_max = std::numeric_limits<double>::min();
+                    slope_max = std::numeric_limits<double>::lowest();
 
                     if (graph_impl.is_masked(i) || graph_impl.is_base_level(i))
                     {
@@ -116,7 +116,8 @@ namespace fastscapelib
 
                     for (auto n : grid.neighbors(i, neighbors))
                     {
-                        if (!graph_impl.is_masked(n.idx))
+                        if (!graph_impl.is_masked(n.idx)
+                            && elevation.flat(n.idx) < elevation.flat(i))
                         {
                             slope = (elevation.flat(i) - elevation.flat(n.idx)) / n.distance;
 
@@ -161,7 +162,7 @@ namespace fastscapelib
                     {
                         receivers(i, 0) = i;
                         dist2receivers(i, 0) = 0;
-                        slope_max = std::numeric_limits<double>::min();
+                        slope_max = std::numeric_limits<double>::lowest();
 
                         if (graph_impl.is_masked(i) || graph_impl.is_base_level(i))
                         {
@@ -170,7 +171,8 @@ namespace fastscapelib
 
                         for (auto n : grid.neighbors(i, neighbors))
                         {
-                            if (!graph_impl.is_masked(n.idx))
+                            if (!graph_impl.is_masked(n.idx)
+                                && elevation.flat(n.idx) < elevation.flat(i))
                             {
                                 slope = (elevation.flat(i) - elevation.flat(n.idx)) / n.distance;
 
